@@ -225,6 +225,8 @@ def build(template_path, repo, variant="strict", inline=None):
                 opts["tail"] = d2[len("tail "):].strip().strip("`")
             elif d2.startswith("derive "):
                 opts["derive"] = d2[len("derive "):].strip()
+            elif d2 == "optional":
+                opts["optional"] = True
             elif d2 == "nocanary":
                 opts["nocanary"] = True
             elif d2 == "bodyless":
@@ -242,10 +244,13 @@ def build(template_path, repo, variant="strict", inline=None):
                 # `loop k` or `loop k \`header text\``: with a text, the k-th loop's header must contain that token sequence,
                 # otherwise the invariants are NOT attached (lost anchor): a loop added or removed by a change shifts the
                 # ordinals, and invariants on the wrong loop would fail for no semantic reason
-                ml = re.match(r"loop\s+(\d+)(?:\s+`(.*)`)?\s*$", d2)
+                ml = re.match(r"loop\s+(\d+)(?:\s+`(.*)`)?\s*(\?)?\s*$", d2)
                 cur = opts["loops"].setdefault(int(ml.group(1)), [])
                 if ml.group(2):
                     opts.setdefault("loop_heads", {})[int(ml.group(1))] = ml.group(2)
+                if ml.group(3):
+                    # `?`: the loop may be absent (a shape of the code without it is decided without these invariants)
+                    opts.setdefault("loop_optional", set()).add(int(ml.group(1)))
             elif d2.startswith("hint "):
                 m = _HINT_RE.match(d2)
                 if not m:
@@ -325,7 +330,14 @@ def build(template_path, repo, variant="strict", inline=None):
             opts["closure_sig"] = True
             res.rewrites.append(("R18", "%s:%d %s" % (relfile, item.line0, selector), "closure " + (item.header or ""), opts["sig"]))
         else:
-            item = find_item(path, selector)
+            try:
+                item = find_item(path, selector)
+            except LostAnchor:
+                if opts.get("optional"):
+                    # `optional`: an item that exists only in one shape of the code (e.g. a constant introduced by a repair)
+                    res.rewrites.append(("R18", "%s %s" % (relfile, selector), "skipped", "optional item not present"))
+                    continue
+                raise
         src = open(path).read()
 
         def src_line_of(pos, _src=src):
@@ -404,7 +416,8 @@ def build(template_path, repo, variant="strict", inline=None):
             ins = {}
             for kord, content in opts["loops"].items():
                 if kord < 1 or kord > len(loops):
-                    res.lost.append("%s: loop %d not found (%d loops)" % (where, kord, len(loops)))
+                    if kord not in opts.get("loop_optional", set()):
+                        res.lost.append("%s: loop %d not found (%d loops)" % (where, kord, len(loops)))
                     continue
                 want = opts.get("loop_heads", {}).get(kord)
                 if os.environ.get("VX_LOOP_HEADS"):
@@ -413,6 +426,8 @@ def build(template_path, repo, variant="strict", inline=None):
                     hd = R.loop_header(body, loops[kord - 1])
                     wt = [t.text for t in R.lex(want) if t.kind not in ("ws", "lcomment", "bcomment")]
                     if not any(hd[q:q + len(wt)] == wt for q in range(len(hd) - len(wt) + 1)):
+                        if kord in opts.get("loop_optional", set()):
+                            continue
                         res.lost.append("%s: loop %d is `%s`, expected a header containing `%s`" % (where, kord, " ".join(hd)[:80], want))
                         continue
                 ins[loops[kord - 1]] = content
